@@ -298,7 +298,7 @@ decoded-choice digest.",
     }],
     randoms: &[RandomDef {
         name: "histories",
-        cases: |t: Tier| t.pick(300_000, 60_000_000),
+        cases: |t: Tier| t.pick(900_000, 60_000_000),
         tape_len: 700,
         exec: None,
     }],
